@@ -115,35 +115,36 @@ func LoadKnown(path string) ([]Known, error) {
 // Run context
 
 type Ctx struct {
-	Prop    string
-	Tier    string
-	Seed    int64
-	Level   string
-	Goit    string // binary built from the current tree (tag verif)
-	GoitVFS string // binary of the vfs-rewritten scratch copy (C15/C16), may be ""
-	GoitIn  string // in-process monitor binary, may be ""
-	Scratch string
+	Prop     string
+	Tier     string
+	Seed     int64
+	Level    string
+	Goit     string // binary built from the current tree (tag verif)
+	GoitVFS  string // binary of the vfs-rewritten scratch copy (C15/C16), may be ""
+	GoitIn   string // in-process monitor binary, may be ""
+	GoitRace string // -race build (tripwire), may be ""
+	Scratch  string
 	VerifDir string
-	Workers int
-	Start   time.Time
+	Workers  int
+	Start    time.Time
 
-	mu        sync.Mutex
-	oracles   map[string]int64
-	counts    map[string]int64
-	classes   map[string]int64
-	failures  []Failure
-	witnessed int
-	samples   []any
-	known     []Known
-	knownHit  map[string]int
+	mu           sync.Mutex
+	oracles      map[string]int64
+	counts       map[string]int64
+	classes      map[string]int64
+	failures     []Failure
+	witnessed    int
+	samples      []any
+	known        []Known
+	knownHit     map[string]int
 	inconclusive int64
 	evaluations  int64
-	notes     []string
-	Rule      string
-	Assume    []string
-	Extra     map[string]any
-	replayPaths []string
-	broken    []string
+	notes        []string
+	Rule         string
+	Assume       []string
+	Extra        map[string]any
+	replayPaths  []string
+	broken       []string
 }
 
 func NewCtx(prop, tier string, seed int64) *Ctx {
@@ -164,12 +165,12 @@ func (c *Ctx) Pick(q, t int) int {
 	return q
 }
 
-func (c *Ctx) Oracle(id string)      { c.mu.Lock(); c.oracles[id]++; c.mu.Unlock() }
+func (c *Ctx) Oracle(id string)           { c.mu.Lock(); c.oracles[id]++; c.mu.Unlock() }
 func (c *Ctx) OracleN(id string, n int64) { c.mu.Lock(); c.oracles[id] += n; c.mu.Unlock() }
-func (c *Ctx) Count(k string)        { c.mu.Lock(); c.counts[k]++; c.mu.Unlock() }
-func (c *Ctx) CountN(k string, n int64) { c.mu.Lock(); c.counts[k] += n; c.mu.Unlock() }
-func (c *Ctx) Class(k string)        { c.mu.Lock(); c.classes[k]++; c.mu.Unlock() }
-func (c *Ctx) Eval(n int64)          { c.mu.Lock(); c.evaluations += n; c.mu.Unlock() }
+func (c *Ctx) Count(k string)             { c.mu.Lock(); c.counts[k]++; c.mu.Unlock() }
+func (c *Ctx) CountN(k string, n int64)   { c.mu.Lock(); c.counts[k] += n; c.mu.Unlock() }
+func (c *Ctx) Class(k string)             { c.mu.Lock(); c.classes[k]++; c.mu.Unlock() }
+func (c *Ctx) Eval(n int64)               { c.mu.Lock(); c.evaluations += n; c.mu.Unlock() }
 func (c *Ctx) Inconclusive(why string) {
 	c.mu.Lock()
 	c.inconclusive++
@@ -193,7 +194,7 @@ func (c *Ctx) Sample(s any) {
 	}
 	c.mu.Unlock()
 }
-func (c *Ctx) NumClasses() int { c.mu.Lock(); defer c.mu.Unlock(); return len(c.classes) }
+func (c *Ctx) NumClasses() int         { c.mu.Lock(); defer c.mu.Unlock(); return len(c.classes) }
 func (c *Ctx) GetCount(k string) int64 { c.mu.Lock(); defer c.mu.Unlock(); return c.counts[k] }
 
 func (c *Ctx) isKnown(f Failure) (Known, bool) {
@@ -234,7 +235,11 @@ func (c *Ctx) WantWitness() (int, bool) {
 	return c.witnessed, true
 }
 
-func (c *Ctx) AddReplay(p string) { c.mu.Lock(); c.replayPaths = append(c.replayPaths, p); c.mu.Unlock() }
+func (c *Ctx) AddReplay(p string) {
+	c.mu.Lock()
+	c.replayPaths = append(c.replayPaths, p)
+	c.mu.Unlock()
+}
 
 // ---------------------------------------------------------------------------------------
 // Witness
@@ -308,19 +313,19 @@ type Monitor interface {
 }
 
 type World struct {
-	C     *Ctx
-	Hist  int
-	SB    *sandbox.Sandbox
-	Rng   *rand.Rand
-	Steps []*Step
-	Mons  []Monitor
-	TZ    string
-	Env   map[string]string
+	C       *Ctx
+	Hist    int
+	SB      *sandbox.Sandbox
+	Rng     *rand.Rand
+	Steps   []*Step
+	Mons    []Monitor
+	TZ      string
+	Env     map[string]string
 	GoitBin string
-	Shadow map[string]any // monitor-private shadow state
-	failed []Failure
-	last  *sandbox.Snap
-	Tag   map[string]string // intent for next step
+	Shadow  map[string]any // monitor-private shadow state
+	failed  []Failure
+	last    *sandbox.Snap
+	Tag     map[string]string // intent for next step
 }
 
 func (c *Ctx) NewWorld(hist int, mons []Monitor) (*World, error) {
